@@ -225,6 +225,28 @@ pub fn run(ctx: &Ctx) {
     ctx.cold("cold_start_eea", "EEA3 as the first library operation of a fresh process", cold_cases(1), check_eea);
     ctx.cold("cold_start_eia", "EIA3 as the first library operation of a fresh process", cold_cases(0), check_eia);
 
+    let around = |lo: u32| move || {
+        let mut v = Vec::new();
+        for words in [16u32, 32, 64, 128, 256, 512, 1024, 2048] {
+            for length in (32 * words - 34)..=(32 * words + 34) {
+                if length < lo {
+                    continue;
+                }
+                let s = (words as u64) << 20 | length as u64;
+                v.push(EC { key: Hex(expand_bytes(s ^ 0xaaa4, 16)), count: s as u32 ^ 0x0f0f_0f0f, bearer: (s % 32) as u32, direction: (length % 2) as u32, length, seed: s, surplus: (length % 3) as u8, content: 0, explicit: vec![] });
+            }
+        }
+        v
+    };
+    ctx.exhaustive("eea_lengths_around_word_count_powers_of_two", "EEA3: every LENGTH within 34 bits of 32*w for w in {16, 32, ..., 2048} words (buffered / chunked keystream generation has its seams there)", around(1), check_eea);
+    ctx.exhaustive("eia_lengths_around_word_count_powers_of_two", "EIA3: the same lengths", around(0), check_eia);
+
+    let huge: Vec<u32> = ctx.tier.pick(vec![(1u32 << 18) + 7], vec![(1 << 21) - 1, (1 << 21) + 33, (1 << 24) + 5, (1 << 26) + 31]);
+    let huge2 = huge.clone();
+    let mk = |length: u32| EC { key: Hex(expand_bytes(length as u64 ^ 0xaaa5, 16)), count: !length, bearer: length % 32, direction: length % 2, length, seed: length as u64, surplus: 1, content: 0, explicit: vec![] };
+    ctx.listed("eea_huge_lengths", "EEA3 at a few very large LENGTH values (2^18+7 in the quick tier; up to 2^26+31 bits in the thorough tier): size arithmetic in 32-bit types", move || huge.iter().map(|l| mk(*l)).collect::<Vec<_>>(), check_eea);
+    ctx.listed("eia_huge_lengths", "EIA3 at the same LENGTH values", move || huge2.iter().map(|l| mk(*l)).collect::<Vec<_>>(), check_eia);
+
     let maxbits = ctx.tier.pick(1u32 << 16, 1u32 << 20);
     let strat = move |lo: u32| {
         move || {
